@@ -10,6 +10,7 @@ for p in $(python3 -c "import json;print(' '.join(sorted(json.load(open('tools/c
   [ $code -ne 0 ] && rc=1
 done
 python3 tools/gen_manifest.py
+python3 tools/gen_design_tables.py
 python3-vt - <<'PY'
 import json,jsonschema,glob
 jsonschema.validate(json.load(open('/verif/MANIFEST.json')), json.load(open('/root/.vp/MANIFEST.schema.json')))
